@@ -34,8 +34,8 @@ EPS = 2.220446049250313e-16
 FLOOR = 16 * EPS
 ZMAX = 7.034          # Phi(-7.034) = 1.0e-12: the quantifier's range of failure probabilities
 
-nontrivial_rule(PROP, "Non-trivial: load scatter > 0 and (P_f outside [1e-4, 1-1e-4] or scatter ratio s_L/s_S outside [1/30, 30] "
-                      "or |z| < 0.05 with s_L/s_S > 30 (step inside the bulk of the load)); for the arbitrary-density clause: the rigorous "
+nontrivial_rule(PROP, "Non-trivial: load scatter > 0 and (P_f outside [1e-4, 1-1e-4] or scatter ratio s_L/s_S outside [1/30, 30]); "
+                      "vanishing-scatter clause: P_f outside [1e-4, 1-1e-4]; for the arbitrary-density clause: the rigorous "
                       "trapezoid bound of the finest grid is below 1 % of min(P_f, 1-P_f), i.e. the clause can tell a wrong value from a right one.")
 assumptions(PROP, [
     "scalar arguments (quad cannot integrate array-valued integrands; the vectorised docstring of pf_norm_load is not exercised)",
@@ -267,12 +267,15 @@ def _arbitrary(draw, tier):
     z = draw(st.one_of(st.floats(-5.0, 5.0), st.floats(-1.0, 1.0)))
     n = draw(st.integers(60, 400 if tier == "quick" else 1500))
     pattern = draw(st.lists(st.integers(1, 4), min_size=1, max_size=6))
+    grading = draw(st.sampled_from([0.0, 0.0, 1.0, 3.0, -0.7]))     # spacing grows (or shrinks) linearly across the interval
     half = draw(st.floats(8.0, 12.0))
-    return {"strength_median": sm, "strength_std": sS, "load_std": sL, "z": z, "n": n, "spacing_pattern": pattern, "half_width_sigmas": half}
+    return {"strength_median": sm, "strength_std": sS, "load_std": sL, "z": z, "n": n, "spacing_pattern": pattern, "grading": grading,
+            "half_width_sigmas": half}
 
 
-def _grid(a, b, n, pattern):
+def _grid(a, b, n, pattern, grading=0.0):
     w = np.array([pattern[i % len(pattern)] for i in range(n - 1)], dtype=float)
+    w = w * (1.0 + grading * np.arange(n - 1) / max(n - 2, 1))
     x = a + (b - a) * np.concatenate([[0.0], np.cumsum(w) / w.sum()])
     x[-1] = b
     return x
@@ -311,7 +314,7 @@ def arbitrary_load_converges(case, ctx):
     fp = _fp()(sm, sS)
     errs, bounds = [], []
     for mult in (1, 4, 16):
-        x = _grid(a, b, case["n"] * mult, case["spacing_pattern"])
+        x = _grid(a, b, case["n"] * mult, case["spacing_pattern"], case.get("grading", 0.0))
         pdf = _pdf(x, muL, sL)
         got = float(fp.pf_arbitrary_load(x, pdf))
         h = np.diff(x)
@@ -321,7 +324,7 @@ def arbitrary_load_converges(case, ctx):
         if not errs[-1] <= bound:
             raise Violation("pf_arbitrary_load on %d points = %r, Phi(z) = %r: error %.3g exceeds the trapezoid bound %.3g (s_L/s_S = %.3g, z = %.4g)"
                             % (len(x), got, p, errs[-1], bound, sL / sS, z), bucket="arbitrary:bound")
-    ctx.label("uniform" if len(set(case["spacing_pattern"])) == 1 else "nonuniform")
+    ctx.label("graded" if case.get("grading") else "uniform" if len(set(case["spacing_pattern"])) == 1 else "periodic_nonuniform")
     ctx.label("decisive" if bounds[-1] <= 1e-2 * min(p, q) else "indecisive")
     if bounds[-1] <= 1e-2 * min(p, q):
         ctx.nontrivial()
